@@ -42,7 +42,9 @@ def exn_name(e):
 
 
 def scratch_root():
-    base = "/dev/shm" if os.path.isdir("/dev/shm") and os.access("/dev/shm", os.W_OK) else None
+    base = os.environ.get("HSVERIF_SCRATCH")          # set by ./check: one directory per run, removed whole when the run ends
+    if not (base and os.path.isdir(base)):
+        base = "/dev/shm" if os.path.isdir("/dev/shm") and os.access("/dev/shm", os.W_OK) else None
     return tempfile.mkdtemp(prefix="hsverif-", dir=base)
 
 
